@@ -250,6 +250,9 @@ def disturbance(kind, t, rank, rng, cfg):
     gap = rng.choice((2.0 ** -6, 0.125, 0.5, 1.0, 2.5))
     who = kind[0] if kind[0] in "OW" else None
     if kind.endswith("stop-start"):
+        if rng.random() < 0.2:
+            # stop() immediately followed by start(): both calls inside one event-loop iteration
+            return [(t, rank, dict(kind="stop", who=who)), (t, rank, dict(kind="start", who=who))], t
         return [(t, rank, dict(kind="stop", who=who)), (t + gap, BEFORE, dict(kind="start", who=who))], t + gap
     if kind.endswith("crash-restart"):
         return [(t, rank, dict(kind="crash", who=who)), (t + gap, BEFORE, dict(kind="restart", who=who))], t + gap
